@@ -16,6 +16,21 @@ the model except for the canonicalisation of error kinds):
       E : every rejection of `hdr_decode` / `frame_decode` is reported with `EParseError.ERR`, and the rejected result
           still carries whatever was parsed (fid UNDEF, the declared length) — legal: the interface only says that
           `err` is not NOERR
+    the concrete Python TYPES of the results (the model has `fid : Nat`, `data : List UInt8`; nxslib compares frame
+    ids with `==` / `!=` only and treats payloads / frames as byte strings):
+      i : the frame id of `DParseHdr` / `DParseFrame` is the plain `int` read off the wire (`fid=data[k]`), not a
+          member of `EParseId`
+      n : the frame id is a member of the codec's OWN `IntEnum` (`FamId`, same numbers as `EParseId`): an int subclass
+          that is equal to, but never identical with, the `EParseId` member
+      a : the payload of `DParseFrame` is a `bytearray`
+      m : the codec works on a `memoryview` of its input (no copy until the result); payload / footer are
+          `memoryview.tobytes()` results
+      b : `frame_create` returns a `bytearray`
+    NOT varied, on purpose (see `assumptions` of props/C20.py): `foot_validate` returns a real `bool` and `err` is a
+    member of `EParseError` — nxslib itself tests these two by identity (`foot_validate(...) is False`,
+    `hdr.err is not EParseError.NOERR`, pinned by rule R5 of the static scan), so a codec returning `int(ok)` / `0`
+    there is outside "honours the frame interface" (`-> bool`, `err: EParseError`); `hdr_find`, `flen`, `hdr_len`,
+    `foot_len` are plain ints.
 
 Two INDEPENDENT implementations live here:
   * `frame_cls(pstr)`  — class factory: an `ICommFrame` subclass (what a user of nxslib would write and hand to
@@ -136,6 +151,7 @@ _S_CHAIN = []      # the classes realised as subclasses of concrete codecs, in c
 def frame_cls(pstr):
     from nxslib.proto.iframe import DParseFrame, DParseHdr, EParseError, EParseId, ICommFrame
     from nxslib.proto.serialframe import SerialFrame
+    from enum import IntEnum
     P = parse_params(pstr)
     _, impl = split_impl(pstr)
     HL, FL, SOF = P.hdr_len, P.foot_len, P.sof
@@ -144,6 +160,12 @@ def frame_cls(pstr):
     E_LEN = EParseError.ERR if ("e" in impl or "E" in impl) else EParseError.FOOT
     E_FOOT = EParseError.ERR if "E" in impl else EParseError.FOOT
     CARRY = "E" in impl
+    INT_ID = "i" in impl
+    OWN_ENUM = "n" in impl and not INT_ID
+    DATA_BA = "a" in impl
+    MVIEW = "m" in impl
+    CREATE_BA = "b" in impl
+    FamId = IntEnum("FamId", [(m.name, m.value) for m in EParseId])
     if "s" in impl:
         base = _S_CHAIN[-1] if _S_CHAIN else SerialFrame
         # the parents are in use before the derived codec class exists
@@ -199,7 +221,7 @@ def frame_cls(pstr):
                 return DParseHdr(err=E_HDR)
             if len(data) < HL:
                 return DParseHdr(err=E_HDR)
-            data = data[:HL]
+            data = memoryview(data)[:HL] if MVIEW else data[:HL]
             if data[0] != SOF:
                 return DParseHdr(err=E_HDR)
             off = 1
@@ -218,11 +240,19 @@ def frame_cls(pstr):
                 fid = EParseId(_id)
             except ValueError:
                 return DParseHdr(flen=flen, err=E_HDR) if CARRY else DParseHdr(err=E_HDR)
+            if INT_ID:
+                fid = _id                   # the byte read off the wire: a plain int
+                assert type(fid) is int
+            elif OWN_ENUM:
+                fid = FamId(_id)            # equal to, not identical with, the EParseId member
             return DParseHdr(fid=fid, flen=flen)
 
         def foot_validate(self, data):
             if len(data) < FL:
                 return False
+            if MVIEW:
+                data = memoryview(data)
+                return check(data[:len(data) - FL]) == data[len(data) - FL:].tobytes()
             return check(data[:len(data) - FL]) == data[len(data) - FL:]
 
         def frame_decode(self, data):
@@ -231,9 +261,15 @@ def frame_cls(pstr):
                 return DParseFrame(err=hdr.err)
             if hdr.flen < HL + FL or hdr.flen > len(data):
                 return DParseFrame(err=E_LEN)
+            if MVIEW:
+                payload = memoryview(data)[HL:hdr.flen - FL].tobytes()
+            else:
+                payload = data[HL:hdr.flen - FL]
+            if DATA_BA:
+                payload = bytearray(payload)
             if self.foot_validate(data[:hdr.flen]) is False:
-                return DParseFrame(fid=hdr.fid, data=data[HL:hdr.flen - FL], err=E_FOOT) if CARRY else DParseFrame(err=E_FOOT)
-            return DParseFrame(fid=hdr.fid, data=data[HL:hdr.flen - FL])
+                return DParseFrame(fid=hdr.fid, data=payload, err=E_FOOT) if CARRY else DParseFrame(err=E_FOOT)
+            return DParseFrame(fid=hdr.fid, data=payload)
 
         def frame_create(self, fid, data):
             assert fid <= 255
@@ -250,8 +286,10 @@ def frame_cls(pstr):
                     out.append(f[1])
             if data is not None:
                 out += data
-            return bytes(out) + check(bytes(out))
+            out += check(bytes(out))
+            return out if CREATE_BA else bytes(out)
 
+    FamFrame.id_type = int if INT_ID else (FamId if OWN_ENUM else EParseId)
     FamFrame.__name__ = "FamFrame_" + "".join(c if c.isalnum() else "_" for c in pstr)
     if "s" in impl:
         _S_CHAIN.append(FamFrame)
@@ -269,7 +307,21 @@ def realisation(pstr):
         out.append("every rejection reported as EParseError.ERR, rejected results carry the parsed fields")
     elif "e" in impl:
         out.append("length-range rejections of frame_decode reported as EParseError.ERR")
-    return "; ".join(out) or "class derived from ICommFrame, rejections reported as HDR / FOOT"
+    if "i" in impl:
+        out.append("frame id reported as the plain int read off the wire (DParseHdr(fid=data[k], ...))")
+    elif "n" in impl:
+        out.append("frame id reported as a member of the codec's own IntEnum (equal to, not identical with, EParseId.X)")
+    if "a" in impl:
+        out.append("payload of DParseFrame is a bytearray")
+    if "m" in impl:
+        out.append("codec slices a memoryview of its input")
+    if "b" in impl:
+        out.append("frame_create returns a bytearray")
+    if "s" not in impl:
+        out.insert(0, "class derived from ICommFrame")
+    if not ("e" in impl or "E" in impl):
+        out.append("rejections reported as HDR / FOOT")
+    return "; ".join(out)
 
 
 # ---------------------------------------------------------------------------------------------------------
